@@ -644,6 +644,9 @@ func runC03(r *RunCtx) error {
 			return []c03Gauge{{Coins: []c03Coin{{"ujkl", 7}}, Full: true}, {Coins: []c03Coin{{"ujkl", 7}}, Full: true}}
 		}
 	}
+	if err := c03RestartTwin(r); err != nil {
+		return err
+	}
 	// ---- (a) deterministic: the pattern the unrepaired loop got wrong, then all patterns
 	c03RunSpec(r, e, c03Spec{Tag: "det:A-fail,B-ok,C-ok", CW: 100, H: 300, Provs: c03StdProvs(3),
 		Files: []c03File{c03PatternFile(300, []int{0, 1, 2}, 1, 1000, 0)}, Gauges: stdG(0)})
